@@ -4,7 +4,8 @@ from vf.core import Part, Violation, call
 from vf.props import common
 
 PROPERTY = "C01"
-RULE = ("Hypothesis generates validated model DAG specs (all connectives, nesting <=3/4, shared sub-propositions, "
+RULE = ("Parts 'shapes*': EXHAUSTIVE enumeration of every single threshold node (all values/signs, 1-2 children from a boolean "
+        "and an integer leaf with negative lower bound) alone and inside every connective. Other parts: Hypothesis generates validated model DAG specs (all connectives, nesting <=3/4, shared sub-propositions, "
         "boolean + integer leaves incl. negative and 16-bit ranges, no pre-fixed nodes); every in-bounds leaf "
         "assignment is enumerated when the leaf box is small, otherwise boundary/threshold-biased points are drawn. "
         "Oracle: own bottom-up arithmetic evaluator over the built object graph + own A.x>=b in Python ints, columns "
@@ -74,9 +75,15 @@ def check_model(case, ev, max_eval=6):
     ev.case(case, nontrivial, common.model_classes(spec, m) + (["both_truth_values"] if seen_vals == {0, 1} else []))
 
 
+def shapes(slice_i, n):
+    from vf import strategies as S
+    for spec in S.small_shapes(slice_i, n):
+        yield {"model": spec, "points": None}
+
+
 def parts(tier):
     q = tier == "quick"
-    return [
+    return [Part("shapes%d" % i, enumerate_cases=(lambda t, i=i: shapes(i, 4)), check=check_model, time_quick=120.0) for i in range(4)] + [
         Part("small", strategy=lambda t: common.model_case(guard=1500 if t == "quick" else 6000, depth=3 if t == "quick" else 4,
                                                            profile="small"),
              check=check_model, quick=(6, 400), thorough=(12, 2500)),
